@@ -94,6 +94,8 @@ def leq(a, b):
 
 
 def close(a, b, rel=1e-9):
+    if isinstance(a, (str, bytes)) or isinstance(b, (str, bytes)) or a is None or b is None:
+        return a == b               # a text where a number is due (read from the wrong column) is simply different
     if a != a and b != b:
         return True
     if a != a or b != b:
@@ -2490,7 +2492,8 @@ class TrackWorld(World):
         if target is None or not hasattr(target, "getObs"):
             raise Skip()
         nm = self._adopt_all(target, st.get("tag0", 10 ** 6))
-        if nm is not None and len(set(id(target.getObs(i)) for i in range(target.size()))) != target.size():
+        if k in ("idle_begin", "idle_end") and nm is not None \
+                and len(set(id(target.getObs(i)) for i in range(target.size()))) != target.size():
             nm = None           # the same observation object at two places (an index range that wrapped around)
             if fork:
                 self._check_all(fprop, "%s (the source track must be unchanged)" % k)
